@@ -52,29 +52,32 @@ LE = "liquid.builtin.expressions.loop.LoopExpression"
 # ---------------------------------------------------------------------------------------------
 # side conditions of reviewed rows
 def _cond_slice_offset(repo: Repo) -> str | None:
-    """``_slice`` receives ``offset`` as None, the literal 'continue', or an int from _to_int."""
+    """``_slice`` receives ``offset`` as None, the literal 'continue', or an int from _to_int.
+    (The local that carries the value is whatever name is passed as ``offset=`` to ``_slice``.)"""
     for m in ("evaluate", "evaluate_async"):
         f = repo.own_method(LE, m)
+        sl = [c for c in calls(f.node) if callee_name(c) == "_slice"]
+        vs = {text(k.value) for c in sl for k in c.keywords if k.arg == "offset"}
+        if not sl or len(vs) != 1 or not all(isinstance(k.value, ast.Name) for c in sl for k in c.keywords if k.arg == "offset"):
+            return f"{f.qual}: _slice is not called with offset=<one local>"
+        var = next(iter(vs))
         ok_if = False
         for n in ast.walk(f.node):
-            if isinstance(n, ast.If) and text(n.test) == "offset != 'continue'":
-                if len(n.body) == 1 and isinstance(n.body[0], ast.Assign) and is_name(n.body[0].targets[0], "offset") and "_to_int(" in text(n.body[0].value) and not n.orelse:
+            if isinstance(n, ast.If) and text(n.test) in (f"{var} != 'continue'", f"'continue' != {var}"):
+                if len(n.body) == 1 and isinstance(n.body[0], ast.Assign) and is_name(n.body[0].targets[0], var) and "_to_int(" in text(n.body[0].value) and not n.orelse:
                     ok_if = True
         if not ok_if:
-            return f"{f.qual}: a quoted offset is no longer validated with `if offset != 'continue': offset = self._to_int(offset, ...)`"
+            return f"{f.qual}: a quoted offset is no longer validated with `if {var} != 'continue': {var} = self._to_int({var}, ...)`"
         for n in walk_no_nested(f.node):
             tgt, val = None, None
             if isinstance(n, ast.Assign) and len(n.targets) == 1:
                 tgt, val = n.targets[0], n.value
             elif isinstance(n, ast.AnnAssign):
                 tgt, val = n.target, n.value
-            if tgt is not None and is_name(tgt, "offset") and val is not None:
+            if tgt is not None and is_name(tgt, var) and val is not None:
                 tv = text(val)
                 if not (tv == "None" or "_to_int(" in tv or tv in ("self.offset.evaluate(context)", "self.offset.value")):
-                    return f"{f.qual}: `offset = {tv}` is neither None, a _to_int(...) result nor the literal validated by the next statement"
-        sl = [c for c in calls(f.node) if callee_name(c) == "_slice"]
-        if not sl or any(text(k.value) != "offset" for c in sl for k in c.keywords if k.arg == "offset"):
-            return f"{f.qual}: _slice is not called with offset=offset"
+                    return f"{f.qual}: `{var} = {tv}` is neither None, a _to_int(...) result nor the literal validated by the next statement"
     return None
 
 
